@@ -14,6 +14,7 @@ from mc.env.stackworld import NcpEzsp
 ASSUMPTIONS = [
     "formNetwork promotes the staged initial security state and staged frame counters to the running network; leaveNetwork and tokenFactoryReset erase network, security, counters and child table",
     "getKey / exportKey return the network key with its sequence number and outgoing frame counter, and the (possibly hashed) preconfigured key as trust-centre link key",
+    "exportKey: key index 1 of the network key type is the alternate network key (unset: zeros), higher indices and any multi-network index other than 0 fail",
     "getCurrentSecurityState reports GLOBAL_LINK_KEY and the hashed-link-key bits exactly as requested in the initial security state, plus HAVE_TRUST_CENTER_LINK_KEY",
     "key-table reads: index >= configured size -> index-out-of-range, empty slot -> entry-erased / not-found; child-table reads of empty slots -> not-joined",
     "the rewritable EUI64 token (NV3, EZSP v9+) takes effect at once; MFG_CUSTOM_EUI_64 can be burned once; address table is empty",
@@ -204,6 +205,12 @@ class NetNcp(NcpEzsp):
         key = t.KeyData(b"\x00" * 16)
         kind = "ok"
         if not self.running:
+            kind = "fail"
+        elif int(getattr(ctx, "multi_network_index", 0)) != 0:
+            kind = "fail"                                   # single-network NCP: only network index 0 exists
+        elif ctx.core_key_type == t.SecurityManagerKeyType.NETWORK and int(ctx.key_index) == 1:
+            key = t.KeyData(b"\x00" * 16)                   # the alternate network key (none set): not the current one
+        elif ctx.core_key_type == t.SecurityManagerKeyType.NETWORK and int(ctx.key_index) > 1:
             kind = "fail"
         elif ctx.core_key_type == t.SecurityManagerKeyType.NETWORK:
             key = self.network["security"].networkKey
